@@ -33,6 +33,7 @@ let parse_op fs =
   | "X" -> Some (OSlice (n 1, n 2, z 3, z 4), Some (int_of_string (List.nth fs 1)))
   | "T" -> Some (OCharToString (n 1, z 2), Some (int_of_string (List.nth fs 1)))
   | "R" -> Some (OReplace (n 1, z 2, z 3), Some (int_of_string (List.nth fs 1)))
+  | "M" -> Some (OEmptyOwned (n 1), Some (int_of_string (List.nth fs 1)))
   | "I" -> Some (OIndex (n 1, z 2), None)
   | "N" -> Some (OLength (n 1), None)
   | "Q" -> Some (OEqual (n 1, n 2), None)
